@@ -92,6 +92,11 @@ def function_boundary():
             out.append(("fn-boundary-misplaced", "stel n = 0; zolang n < 3 { n += 1; functie() { %s }() }; n" % inner))
             out.append(("fn-boundary-misplaced", "functie buiten() { stel n = 0; zolang n < 3 { n += 1; functie binnen() { %s }; binnen() }; n }; buiten()" % inner))
             out.append(("fn-boundary-misplaced", "print(\"voor\"); zolang ja { functie g() { %s }; stop }; 1" % inner))
+            # an exit of the OUTER loop written BEFORE a function literal that has a loop of its own (pending exits of the outer loop
+            # must be patched by the outer loop, not by the literal's loop)
+            out.append(("fn-boundary-outer-exit", "stel n = 0; stel t = 0; zolang n < 5 { n += 1; als n == 3 { %s }; stel f = functie() { stel k = 0; zolang k < 4 { k += 1 }; k }; t = t + f() * 100 }; [n, t]" % ex))
+            out.append(("fn-boundary-outer-exit", "functie buiten() { stel n = 0; stel t = 0; zolang n < 5 { n += 1; als n == 3 { %s }; functie binnen() { stel k = 0; zolang k < 4 { k += 1; als k == 2 { %s } }; k }; t = t + binnen() * 100 }; [n, t] }; buiten()" % (ex, ex)))
+            out.append(("fn-boundary-outer-exit", "stel n = 0; zolang n < 4 { n += 1; zolang ja { %s }; stel f = functie() { zolang nee { } ; 7 }; als n == 2 { stop }; f() }; n" % ("stop" if ex == "volgende" else ex)))
             # with a loop of its own the same exit is fine, and it ends the INNER loop only
             out.append(("fn-boundary-own-loop", "stel n = 0; zolang n < 3 { n += 1; stel f = functie() { stel k = 0; zolang k < 5 { k += 1; %s }; k }; n = n + f() }; n" % inner))
     return out
